@@ -18,11 +18,14 @@
 #include "XalanTransformer.hpp"
 
 #include <algorithm>
+#include <exception>
 #include <iostream>
 #include <cstring>
 
 
+#include <xercesc/dom/DOMException.hpp>
 #include <xercesc/sax/SAXParseException.hpp>
+#include <xercesc/util/OutOfMemoryException.hpp>
 
 
 
@@ -507,6 +510,43 @@ FormatXalanDOMException(
 
 
 
+// Store a plain message.  This is used for exceptions that are not part of
+// the Xalan or Xerces-C exception hierarchies, where nothing must be assumed
+// about the state of the execution context (or about available memory).
+static void
+SetErrorMessage(
+            const char*         theMessage,
+            CharVectorType&     theErrorMessage)
+{
+    using std::strlen;
+
+    try
+    {
+        theErrorMessage.assign(
+            theMessage,
+            theMessage + strlen(theMessage) + 1);
+    }
+    catch(...)
+    {
+    }
+}
+
+
+
+static void
+FormatStdException(
+            const std::exception&   theException,
+            CharVectorType&         theErrorMessage)
+{
+    const char* const   theMessage = theException.what();
+
+    SetErrorMessage(
+        theMessage == 0 || *theMessage == '\0' ? "A C++ standard library exception occurred." : theMessage,
+        theErrorMessage);
+}
+
+
+
 static void
 LoadErrorMessage(
             XPathExecutionContext&      theExecutionContext,
@@ -690,6 +730,39 @@ XalanTransformer::compileStylesheet(
 
         theResult = -4;
     }
+    catch(const xercesc::OutOfMemoryException&)
+    {
+        SetErrorMessage("Out of memory.", m_errorMessage);
+
+        theResult = -5;
+    }
+    catch(const xercesc::DOMException&   e)
+    {
+        FormatXalanDOMException(
+            *m_stylesheetExecutionContext,
+            XalanDOMException(XalanDOMException::ExceptionCode(e.code)),
+            m_errorMessage);
+
+        theResult = -4;
+    }
+    catch(const std::bad_alloc&)
+    {
+        SetErrorMessage("Out of memory.", m_errorMessage);
+
+        theResult = -5;
+    }
+    catch(const std::exception&  e)
+    {
+        FormatStdException(e, m_errorMessage);
+
+        theResult = -6;
+    }
+    catch(...)
+    {
+        SetErrorMessage("An unknown exception occurred.", m_errorMessage);
+
+        theResult = -6;
+    }
 
     return theResult;
 }
@@ -816,6 +889,39 @@ XalanTransformer::parseSource(
             m_errorMessage);
 
         theResult = -4;
+    }
+    catch(const xercesc::OutOfMemoryException&)
+    {
+        SetErrorMessage("Out of memory.", m_errorMessage);
+
+        theResult = -5;
+    }
+    catch(const xercesc::DOMException&   e)
+    {
+        FormatXalanDOMException(
+            *m_stylesheetExecutionContext,
+            XalanDOMException(XalanDOMException::ExceptionCode(e.code)),
+            m_errorMessage);
+
+        theResult = -4;
+    }
+    catch(const std::bad_alloc&)
+    {
+        SetErrorMessage("Out of memory.", m_errorMessage);
+
+        theResult = -5;
+    }
+    catch(const std::exception&  e)
+    {
+        FormatStdException(e, m_errorMessage);
+
+        theResult = -6;
+    }
+    catch(...)
+    {
+        SetErrorMessage("An unknown exception occurred.", m_errorMessage);
+
+        theResult = -6;
     }
 
     return theResult;
@@ -1500,6 +1606,39 @@ XalanTransformer::doTransform(
         }
 
         theResult = -4;
+    }
+    catch(const xercesc::OutOfMemoryException&)
+    {
+        SetErrorMessage("Out of memory.", m_errorMessage);
+
+        theResult = -5;
+    }
+    catch(const xercesc::DOMException&   e)
+    {
+        FormatXalanDOMException(
+            *m_stylesheetExecutionContext,
+            XalanDOMException(XalanDOMException::ExceptionCode(e.code)),
+            m_errorMessage);
+
+        theResult = -4;
+    }
+    catch(const std::bad_alloc&)
+    {
+        SetErrorMessage("Out of memory.", m_errorMessage);
+
+        theResult = -5;
+    }
+    catch(const std::exception&  e)
+    {
+        FormatStdException(e, m_errorMessage);
+
+        theResult = -6;
+    }
+    catch(...)
+    {
+        SetErrorMessage("An unknown exception occurred.", m_errorMessage);
+
+        theResult = -6;
     }
 
     return theResult;
